@@ -596,7 +596,10 @@ fn run_world(rep: &Report, hk: Hk, issuer_alg: Alg) {
 
 // ---- aud / nonce string alphabet: honest presentations must be accepted for every (aud, nonce) pair
 fn string_alphabet(rep: &Report) {
-    let strs = ["[\"https://v.example\"]", "[\"a\",\"b\"]", "{}", "null", "true", "1", "\"a\"", "a,b", "*", "Https://V.example", " a ", "e\u{301}", "https://v.example/caf\u{e9}", "https://v.example/caf%C3%A9",
+    // two long values (a verifier's challenge may be a signed request object): 1.5 K and 6 K characters
+    let long1: &'static str = Box::leak("n".repeat(1500).into_boxed_str());
+    let long2: &'static str = Box::leak(format!("https://v.example/{}", "p".repeat(6000)).into_boxed_str());
+    let strs = [long1, long2, "[\"https://v.example\"]", "[\"a\",\"b\"]", "{}", "null", "true", "1", "\"a\"", "a,b", "*", "Https://V.example", " a ", "e\u{301}", "https://v.example/caf\u{e9}", "https://v.example/caf%C3%A9",
         "a", "", "https://v.example", "\u{f1}", "xxxxxxxxxxxxxxxxxxxxxxxxxxxxxxxxxxxxxxxxxxxxxxxxxxxxxxxxxxxxxxxx", "a b", "\"", "~", "a.b", "\u{1F600}",
         // ':' without a URI scheme in front, schemes that are not https, characters a URI parser or a JSON borrow would trip over
         "12:30", ":", "Verifier 7: staging", "urn:x:1", "did:example:123", "mailto:a@b", "\\", "a\\b", "\n", "a\tb", "?", "#f", "%", "%zz", "//", "a=b&c=d"];
@@ -720,7 +723,7 @@ fn string_alphabet(rep: &Report) {
         }
     });
     rep.scope_done(json!({"scope": "aud / nonce cross product: a presentation bound to each of the alphabet strings verified under every other string of the alphabet", "strings": strs.len()}));
-    rep.scope_done(json!({"scope": "aud x nonce string alphabet (40 x 40) x 2 formats x 2 holder key types: honest accepted, off-by-one-character expectation rejected"}));
+    rep.scope_done(json!({"scope": "aud x nonce string alphabet (42 x 42, incl. values of 1.5 K and 6 K characters) x 2 formats x 2 holder key types: honest accepted, off-by-one-character expectation rejected"}));
 }
 
 // ---- E2: every single-character edit of an honest KB-JWT
